@@ -152,6 +152,8 @@ def _run_generated(case):
     labels += [f"sv:{k}" for k in skinds]
     if truth_differs:
         labels.append("loaded-variants-differ-from-database-truth")
+    if meta_ is not None and case["db"].get("edge") and any(m[0] in (min(gene.chr_to_ref), max(gene.chr_to_ref)) for m in allv):
+        labels.append("variant-at-an-end-of-the-mapped-span")
     if any(sum(1 for m in ms if m[1].startswith("ins")) > 1 for _, ms, maj, _ in copies if maj is not None):
         labels.append("copy-with-two-insertions")
     nontrivial = bool(allv) or skinds != {"default"}
@@ -295,7 +297,7 @@ def _indelpost_miscounts(gene, bam, d):
 
 
 def case_strategy(db_kwargs=None):
-    dbs = gen_db.db_specs(**dict({"echo": True}, **(db_kwargs or {})))
+    dbs = gen_db.db_specs(**dict({"echo": True, "edge": True}, **(db_kwargs or {})))
     return st.fixed_dictionaries({
         "db": dbs,
         "build": st.sampled_from(["hg19", "hg38"]),
